@@ -37,8 +37,12 @@ def labels(draw, n, kind=None, order=None, kinds="ifs"):
     kind = kind or draw(st.sampled_from(list(kinds)))
     order = order or draw(st.sampled_from(["inc", "dec", "shuf"]))
     if kind == "i":
-        if n and draw(st.integers(0, 5)) == 0:
+        c = draw(st.integers(0, 11))
+        if n and c in (0, 1):
             vals = list(draw(st.permutations(list(range(n)))))      # labels that are valid positions (0..n-1) in another order
+        elif c == 2:
+            # large integers with small spacing (dates written as YYYYMMDD): beyond 2**24, where single precision no longer tells neighbours apart
+            vals = [20240100 + k for k in draw(st.lists(st.integers(1, 28), min_size=n, max_size=n, unique=True))]
         else:
             vals = draw(st.lists(st.integers(-6, 14), min_size=n, max_size=n, unique=True))
     elif kind == "f":
